@@ -54,3 +54,26 @@ Example ex12_before_hook_warning :
   = (mkState [[0%float; 0%float; 0%float]; [0.5%float; 2%float; 0.5%float]] [Unsolved; Unsolved; Unsolved] [-1; -1; -1]
              [EvBefore 1], Raise (SolutionError (Some 1))).
 Proof. vm_compute. reflexivity. Qed.
+
+(* errors='replace' inside the guard of nonfinite_start_never_judged_replace_guarded: the period starts from a pre-existing NaN
+   (allowed under 'replace'), pass 1 leaves NaN again — nothing is zeroed, because the local vector was not finite — so pass 2
+   (starting from the stored NaN) is not judged although it moves by < tol from nothing; pass 3 is judged: '.', 3.
+   Every hypothesis of the theorem holds for k = 2. *)
+Definition ex13_state : fstate := mkState [[0%float; nan; 0%float]] [Unsolved; Unsolved; Unsolved] [-1; -1; -1] [].
+Definition ex13_scripts : scripts :=
+  [(1%nat, mkPS [] [[ASet 0 nan]; [ASet 0 0x1.19799812dea11p-40%float]; [ASet 0 0x1.19799812dea11p-40%float]] [])].
+Example ex13_replace_guard_satisfiable :
+  let o := ex10_opts EReplace in
+  let c0 := get_check float fzero ex_desc (vals_of ex13_state) 1%nat in
+  f_solve_t ex13_scripts ex_desc o 1 ex13_state
+  = (mkState [[0%float; 0x1.19799812dea11p-40%float; 0%float]] [Unsolved; Solved; Unsolved] [-1; 3; -1]
+             [EvBefore 1; EvPass 1 1; EvPass 1 2; EvPass 1 3; EvAfter 1 3], Ret true) /\
+  errors o = EReplace /\ length (iters ex13_state) = length (status ex13_state) /\
+  (forall j, (S j < 2)%nat ->
+     all_finite float fisfin (lcur float fisfin fzero (s_ev 3 ex13_scripts) ex_desc o 1 1%nat c0 (vals_of ex13_state) j) = true ->
+     all_finite float fisfin (chkseq float fzero (s_ev 3 ex13_scripts) ex_desc o 1 1%nat c0 (vals_of ex13_state) (S j)) = true) /\
+  all_finite float fisfin (chkseq float fzero (s_ev 3 ex13_scripts) ex_desc o 1 1%nat c0 (vals_of ex13_state) (2 - 1)) = false.
+Proof.
+  cbv zeta. split; [vm_compute; reflexivity|]. split; [reflexivity|]. split; [reflexivity|]. split; [|vm_compute; reflexivity].
+  intros j Hj. assert (j = 0%nat) by lia. subst j. vm_compute. discriminate.
+Qed.
